@@ -2,7 +2,8 @@
 import parseprops, parsecase, dump, docgen
 from common import show_str
 
-THEOREMS = []
+THEOREMS = ['Pylx.C05_no_crash_strict', 'Pylx.C05_no_crash_partial', 'Pylx.C05_no_crash_full_false', 'Pylx.C05_located', 'Pylx.C05_line_col',
+            'Pylx.C05_shape_strict', 'Pylx.C05_parseTop_no_crash_strict', 'Pylx.C05_parseTop_located', 'Pylx.C05_parseTop_line_col']
 RULE = ('PARSE strict: every string of <= k atoms over the LaTeX-significant alphabets (default + custom contexts), random token soups; '
         'every single structural fault (unmatched { } $ \\( \\) \\[ \\] \\begin{x} \\end{x}) injected at every token boundary outside '
         'verbatim text and comments of generated well-formed documents; oracle: outcome is a tree or LatexWalkerParseError with '
@@ -59,6 +60,15 @@ def shrink_candidates(c):
     for d in parseprops.shrink_parse_case(c):
         yield d
 
-LEVEL_TEXT = 'under construction'
-LEVEL_NOTE = 'under construction'
+LEVEL_TEXT = ('Theorems about the strict parser model, for every closed-world context, every input string, every walker start state and every '
+              'amount of fuel: C05_no_crash_strict — the result is never one of the model\'s explicit Python-exception outcomes (IndexError, '
+              'TypeError, AttributeError, ValueError, KeyError sites are all modelled as `crash`), only a tree, a LatexWalkerParseError or fuel; '
+              'C05_located — a parse error carries a position 0 <= p <= len; C05_line_col — the reported line/column are those of that '
+              'position (via the C20 theorem); C05_shape_strict — the outcome shape. C05_no_crash_partial extends crash-freedom to tolerant '
+              'mode under an explicit hypothesis on exotic start states, whose necessity is kernel-checked (C05_no_crash_full_false). '
+              'The "every single injected unmatched delimiter is rejected" clause is not a theorem: it is decided by fault enumeration on '
+              'generated documents (oracle), named as the remaining obligation. The model is tied to the parser by comparing outcome class, '
+              'error kind, position, line and column on bounded-exhaustive atom strings, soups and faulty documents.')
+LEVEL_NOTE = ('closed world of argument parsers; the fault-rejection clause is fault enumeration only; tolerant-mode exotic states (escape character '
+              'that is also a group delimiter with macros disabled) excluded by hypothesis; Lean kernel + propext/Classical.choice/Quot.sound')
 TECHNIQUE = 'Lean 4 proof (no-crash and located-error contracts over the parser model) + PARSE correspondence + fault-injection oracle'
